@@ -13,7 +13,7 @@ variable {κ : Type} [DecidableEq κ]
 
 /-- the result stored for a key-state whose command produced `ovs` (`nc`: no-cache / cache-disabled path) -/
 def mkRes (nc : Bool) (ks : KeyState κ) (k : κ) (ovs : Outs) : Result κ :=
-  { oh := if nc then .nocache ovs else if ks.outs.isEmpty then .self k else .outs ovs,
+  { oh := if ks.outs.isEmpty then .self k else if nc then .nocache ovs else .outs ovs,
     outs := if nc then [] else ovs }
 
 /-- **the backbone invariant**: every stored result is what the command returns on the view its key-state encodes -/
@@ -532,14 +532,17 @@ theorem step_invK {P : Params κ} {A : AdmSpec κ} (hG : GoodK P A) (hfx : P.fx.
         rw [hres]; exact this
       refine ⟨r.oh, rfl, ?_, hao⟩
       rw [hsfs, hres]
-      cases nc with
-      | true => exact ⟨hmap, hget⟩
-      | false =>
-        by_cases he : t.outs.isEmpty = true
-        · have : (mkRes false (keyState t s.fs ohs') (P.K (keyState t s.fs ohs')) (P.run t.cmd (viewAt defs t s.fs)).outs).oh
-              = OH.self (P.K (keyState t s.fs ohs')) := by simp [mkRes, keyState, he]
-          rw [this]; exact List.isEmpty_iff.1 he
-        · have : (mkRes false (keyState t s.fs ohs') (P.K (keyState t s.fs ohs')) (P.run t.cmd (viewAt defs t s.fs)).outs).oh
+      by_cases he : t.outs.isEmpty = true
+      · have : (mkRes nc (keyState t s.fs ohs') (P.K (keyState t s.fs ohs')) (P.run t.cmd (viewAt defs t s.fs)).outs).oh
+            = OH.self (P.K (keyState t s.fs ohs')) := by simp [mkRes, keyState, he]
+        rw [this]; exact List.isEmpty_iff.1 he
+      · cases nc with
+        | true =>
+          have : (mkRes true (keyState t s.fs ohs') (P.K (keyState t s.fs ohs')) (P.run t.cmd (viewAt defs t s.fs)).outs).oh
+              = OH.nocache (P.run t.cmd (viewAt defs t s.fs)).outs := by simp [mkRes, keyState, he]
+          rw [this]; exact ⟨hmap, hget⟩
+        | false =>
+          have : (mkRes false (keyState t s.fs ohs') (P.K (keyState t s.fs ohs')) (P.run t.cmd (viewAt defs t s.fs)).outs).oh
               = OH.outs (P.run t.cmd (viewAt defs t s.fs)).outs := by simp [mkRes, keyState, he]
           rw [this]; exact ⟨hmap, hget⟩
     · show true = cleanOk P.run defs t c
@@ -580,9 +583,9 @@ theorem step_invK {P : Params κ} {A : AdmSpec κ} (hG : GoodK P A) (hfx : P.fx.
       obtain ⟨hm1, hm2⟩ := collect_some hcol
       simp only [ohFor]
       split
-      · exact ⟨hm1, hm2⟩
+      · rename_i he; exact List.isEmpty_iff.1 he
       · split
-        · rename_i he; exact List.isEmpty_iff.1 he
+        · exact ⟨hm1, hm2⟩
         · exact ⟨hm1, hm2⟩
     · intro _ p hp; rw [hfs, hfscok hck]; exact hag p hp
   | failed ohs s2 h h2 h3 e e2 =>
